@@ -13,9 +13,9 @@ Model/Glob.vos Model/Glob.vok Model/Glob.required_vos: Model/Glob.v Base/Bytes.v
 Model/Strings.vo Model/Strings.glob Model/Strings.v.beautified Model/Strings.required_vo: Model/Strings.v Base/Bytes.vo Model/Resp.vo Model/Types.vo Model/Glob.vo
 Model/Strings.vio: Model/Strings.v Base/Bytes.vio Model/Resp.vio Model/Types.vio Model/Glob.vio
 Model/Strings.vos Model/Strings.vok Model/Strings.required_vos: Model/Strings.v Base/Bytes.vos Model/Resp.vos Model/Types.vos Model/Glob.vos
-Model/Lists.vo Model/Lists.glob Model/Lists.v.beautified Model/Lists.required_vo: Model/Lists.v Base/Bytes.vo Model/Resp.vo Model/Types.vo
-Model/Lists.vio: Model/Lists.v Base/Bytes.vio Model/Resp.vio Model/Types.vio
-Model/Lists.vos Model/Lists.vok Model/Lists.required_vos: Model/Lists.v Base/Bytes.vos Model/Resp.vos Model/Types.vos
+Model/Lists.vo Model/Lists.glob Model/Lists.v.beautified Model/Lists.required_vo: Model/Lists.v Base/Bytes.vo Model/Resp.vo Model/Types.vo Model/Strings.vo
+Model/Lists.vio: Model/Lists.v Base/Bytes.vio Model/Resp.vio Model/Types.vio Model/Strings.vio
+Model/Lists.vos Model/Lists.vok Model/Lists.required_vos: Model/Lists.v Base/Bytes.vos Model/Resp.vos Model/Types.vos Model/Strings.vos
 Model/ZSets.vo Model/ZSets.glob Model/ZSets.v.beautified Model/ZSets.required_vo: Model/ZSets.v Base/Bytes.vo Model/Resp.vo Model/Types.vo
 Model/ZSets.vio: Model/ZSets.v Base/Bytes.vio Model/Resp.vio Model/Types.vio
 Model/ZSets.vos Model/ZSets.vok Model/ZSets.required_vos: Model/ZSets.v Base/Bytes.vos Model/Resp.vos Model/Types.vos
